@@ -792,6 +792,11 @@ class IrGenerator:
                     return len(map) == 1
 
                 def check_branches(map: IdMap):
+                    if len(map) != len(bodies):
+                        # the map is keyed by identity: the same object
+                        # (e.g. an enumerator) is used in more than one pattern
+                        return False
+
                     checked = []
 
                     for cond in map.values():
